@@ -1,0 +1,80 @@
+//go:build verif
+
+package gmars
+
+// Accessors for the verification harness in /verif (built only with -tags verif).
+// They expose the unexported token-level entry points so that token sequences
+// generated from the TLA+ specification can be replayed through the real lexer,
+// symbol scanner and FOR expander, and their outputs compared.  No behaviour of
+// the package changes when this file is compiled in.
+
+import "strings"
+
+// VerifToken mirrors the unexported token type.
+type VerifToken struct {
+	Typ int
+	Val string
+}
+
+// token type numbers as used by VerifToken.Typ
+const (
+	VerifTokError   = int(tokError)
+	VerifTokText    = int(tokText)
+	VerifTokNumber  = int(tokNumber)
+	VerifTokSymbol  = int(tokSymbol)
+	VerifTokComma   = int(tokComma)
+	VerifTokColon   = int(tokColon)
+	VerifTokParenL  = int(tokParenL)
+	VerifTokParenR  = int(tokParenR)
+	VerifTokComment = int(tokComment)
+	VerifTokNewline = int(tokNewline)
+	VerifTokInvalid = int(tokInvalid)
+	VerifTokEOF     = int(tokEOF)
+)
+
+func verifIn(in []VerifToken) []token {
+	out := make([]token, len(in))
+	for i, t := range in {
+		out[i] = token{tokenType(t.Typ), t.Val}
+	}
+	return out
+}
+
+func verifOut(in []token) []VerifToken {
+	out := make([]VerifToken, len(in))
+	for i, t := range in {
+		out[i] = VerifToken{int(t.typ), t.val}
+	}
+	return out
+}
+
+// VerifLex runs the lexer over src.
+func VerifLex(src string) ([]VerifToken, error) {
+	toks, err := LexInput(strings.NewReader(src))
+	return verifOut(toks), err
+}
+
+// VerifForExpand runs one pass of the FOR expander over a token sequence.
+func VerifForExpand(in []VerifToken, symbols map[string][]VerifToken) ([]VerifToken, error) {
+	syms := make(map[string][]token)
+	for k, v := range symbols {
+		syms[k] = verifIn(v)
+	}
+	out, err := ForExpand(newBufTokenReader(verifIn(in)), syms)
+	return verifOut(out), err
+}
+
+// VerifScan runs the symbol scanner over a token sequence.
+func VerifScan(in []VerifToken) (map[string][]VerifToken, bool, error) {
+	syms, forSeen, err := ScanInput(newBufTokenReader(verifIn(in)))
+	out := make(map[string][]VerifToken)
+	for k, v := range syms {
+		out[k] = verifOut(v)
+	}
+	return out, forSeen, err
+}
+
+// VerifEval evaluates an expression given as tokens.
+func VerifEval(in []VerifToken) (int, error) {
+	return evaluateExpression(verifIn(in))
+}
